@@ -53,18 +53,18 @@ type RunResult struct {
 
 // RunCtx is what a scenario's main actor gets.
 type RunCtx struct {
-	S    *simrt.Sched
-	St   *simrt.Stream
-	Sc   *Scenario
-	Tier string
+	S     *simrt.Sched
+	St    *simrt.Stream
+	Sc    *Scenario
+	Tier  string
 	Index int // run index within the batch sequence (used to enumerate configuration tables)
 
-	viol   []Violation
-	cross  []Violation
-	trace  []string
-	sample map[string]any
+	viol       []Violation
+	cross      []Violation
+	trace      []string
+	sample     map[string]any
 	nontrivial bool
-	tick   uint64
+	tick       uint64
 }
 
 // Tick returns the next value of the harness's total order of observed
@@ -111,9 +111,16 @@ func (rc *RunCtx) SetSample(k string, v any) {
 func (rc *RunCtx) Progress() { rc.nontrivial = true }
 
 type Scenario struct {
-	Name     string
-	Props    []string // properties whose violations this scenario reports
-	CrashTo  string   // property a crash of the code under test is attributed to ("" = cross observation only)
+	Name    string
+	Props   []string // properties whose violations this scenario reports
+	CrashTo string   // properties (comma separated) a crash or hang of the code under test is attributed to ("" = cross observation only)
+	// Knobs: queue capacities of the code under test may be shortened in
+	// some runs (simrt.Knob)
+	Knobs bool
+	// Also lists properties whose check runs this scenario too, with that
+	// weight, for the crashes and hangs it may provoke (see CrashTo); the
+	// scenario's other oracles stay with Props.
+	Also     map[string]int
 	Horizon  time.Duration
 	MaxSteps uint64
 	Weight   int // share of a property's budget
@@ -139,6 +146,9 @@ func ScenariosFor(prop string) []*Scenario {
 			if p == prop {
 				out = append(out, sc)
 			}
+		}
+		if sc.Also[prop] > 0 {
+			out = append(out, sc)
 		}
 	}
 	sort.Slice(out, func(i, j int) bool { return out[i].Name < out[j].Name })
@@ -214,6 +224,7 @@ func RunOne(sc *Scenario, st *simrt.Stream, o RunOpts) *RunResult {
 	s := simrt.Run(simrt.Config{
 		Stream: st, Policy: pol, Horizon: hz, MaxSteps: sc.MaxSteps, LogLimit: o.LogLimit,
 		MapShuffle: shuffle,
+		Knobs:      sc.Knobs,
 		Main: func() {
 			rc.S = simrt.Cur()
 			mono.SimReset()
